@@ -161,6 +161,20 @@ class C13(runner.Check):
 			tstyle = "dirichlet"
 		targets = [_gen_motif(r, r.randint(1 if not bigdb else 4, maxw), tstyle)
 			for _ in range(nT)]
+		if nT >= 2 and not bigdb and r.chance(0.25):
+			# near-duplicate targets (a redundant database): essentially perfect
+			# matches with slightly different, tiny p-values
+			for _ in range(r.randint(1, max(1, nT // 2))):
+				a, b = r.sample(range(nT), 2)
+				t = copy.deepcopy(targets[b])
+				j = r.randint(0, len(t[0]) - 1)
+				d = r.choice([1e-5, 3e-5, 1e-3])
+				col = [t[i][j] for i in range(4)]
+				hi, lo = col.index(max(col)), col.index(min(col))
+				if hi != lo and t[hi][j] - d >= 0:
+					t[hi][j] -= d
+					t[lo][j] += d
+				targets[a] = t
 		if nT >= 2 and r.chance(0.3):
 			# duplicated targets give exact p-value ties (n_nearest tie handling)
 			for _ in range(r.randint(1, max(1, nT // 2))):
@@ -178,6 +192,21 @@ class C13(runner.Check):
 		if not onehot_pool and r.chance(0.4):
 			for j in r.sample(range(len(pool)), r.randint(1, max(1, len(pool) // 2))):
 				pool[j] = _gen_motif(r, lens[j], "onehot")
+		if not onehot_pool and r.chance(0.3):
+			# near-twin queries (same motif from two sources) and queries that are
+			# (almost) one of the targets
+			for _ in range(r.randint(1, 2)):
+				src = copy.deepcopy(r.choice(pool) if r.chance(0.5) else r.choice(targets))
+				if r.chance(0.7):
+					j = r.randint(0, len(src[0]) - 1)
+					d = r.choice([1e-5, 4e-5, 2e-4])
+					col = [src[i][j] for i in range(4)]
+					hi, lo = col.index(max(col)), col.index(min(col))
+					if hi != lo and src[hi][j] - d >= 0:
+						src[hi][j] -= d
+						src[lo][j] += d
+				pool.append(src)
+			nP = len(pool)
 		if onehot_pool and r.chance(0.6):
 			# seqlets containing unknown (all-zero, "N") columns, and twins that
 			# differ from another seqlet only by N-versus-A
